@@ -133,6 +133,11 @@ def race_cases():
     # ... and the releaser continuing at once, while that sender is still polling
     cases.append({"label": "sender_during_releasing_then_release_at_once", "hold": ["rel:begin"], "create_row": True, "n_events": 3,
                   "order": [], "script": [["advance", 10.5], ["send", "s1"], ["go", ["rel:begin"]], ["advance", 5], ["advance", 12]]})
+    # an INTERNAL wake-up while the run waits for input (a side step's delayed retry): idle is announced, the retry wakes the
+    # run 2 s later, idle is announced again with no received tick in between (the first timer is replaced by the second);
+    # an answer 0.5 s before the second timer is due must cancel it -- the answering step takes 1 s
+    cases.append({"label": "internal_wakeup_then_event", "hold": [], "create_row": True, "n_events": 3, "order": [], "nudge": True,
+                  "script": [["advance", 11.5], ["send", "s1"], ["advance", 3], ["advance", 4]]})
     return cases
 
 
@@ -232,6 +237,8 @@ def run_c26_part(chk):
             lock_traces[i - 1][k]["row"]))
     dmatched = sum(1 for i, d in enumerate(deco, 1) if dreached.get(i, 0) == len(d["events"]))
     for i, d in enumerate(deco, 1):
+        if d["label"] == "internal_wakeup_then_event":
+            continue          # (DbosIdleRelease.tla has no internal wake-ups: judged by the observer only)
         if dreached.get(i, 0) < len(d["events"]) and len([n for n in chk.notes if "drift (deco)" in n]) < 3:
             k = dreached.get(i, 0)
             chk.note("dbos: conformance drift (deco) %s: event %d %s is not a step of DbosIdleRelease.tla" % (d["label"], k + 1, d["events"][k]))
